@@ -753,6 +753,10 @@ fn blocks_message(blocks: impl IntoIterator<Item = (Cid, Vec<u8>)>) -> Option<(B
     (count > 0).then(|| (message.encode_to_vec().into(), count))
 }
 
+/// Upper bound of the encoded size of a block in a Bitswap message besides its payload:
+/// the CID prefix (four varints) and the protobuf field tags and length prefixes.
+const MAX_BLOCK_OVERHEAD: usize = 64;
+
 /// Extract a batch of blocks of no more than `max_size` from `blocks`.
 /// Returns `None` if no more blocks are left.
 fn extract_next_batch<'a>(
@@ -779,6 +783,10 @@ fn extract_next_batch<'a>(
     // Determine how many blocks we can batch. Note that we can always batch at least one
     // block due to check above.
     let mut total_size = 0;
+    // Upper bound of the encoded size of the batch. Every block carries a CID prefix and protobuf
+    // framing besides its payload; with many small blocks this overhead dominates and the
+    // encoded message must still fit into `MAX_MESSAGE_SIZE`.
+    let mut encoded_size = 0;
     let mut block_count = 0;
 
     for b in blocks.iter() {
@@ -786,7 +794,12 @@ fn extract_next_batch<'a>(
         if total_size + next_block_size > max_batch_size {
             break;
         }
+        let next_encoded_size = next_block_size + MAX_BLOCK_OVERHEAD;
+        if block_count > 0 && encoded_size + next_encoded_size > config::MAX_MESSAGE_SIZE {
+            break;
+        }
         total_size += next_block_size;
+        encoded_size += next_encoded_size;
         block_count += 1;
     }
 
